@@ -292,7 +292,7 @@ PROX_NOT_CLAIMED = {
     "L0_5": "closed-form l_0.5 prox (trigonometric root formula)",
     "L2_3": "closed-form l_2/3 prox (quartic root formula)",
     "LogSumPenalty": "log-sum prox (bisection on a threshold)",
-    "SCAD": "SCAD prox = argmin over three candidates (non-convex)",
+    "SCAD": "SCAD prox = argmin over three candidates: decided on regions by R-PROXFOC-CLOSED",
 }
 
 
